@@ -7,12 +7,14 @@ import (
 	"encoding/hex"
 	"encoding/json"
 	"fmt"
+	"os"
 	"strings"
 	"sync"
 	"sync/atomic"
 	"testing"
 	"time"
 
+	"github.com/thushan/olla/internal/verifhook"
 	"github.com/thushan/olla/internal/zzverif"
 )
 
@@ -183,13 +185,40 @@ func TestVerif_Dispatch(t *testing.T) {
 	tr := zzverif.OpenTrace()
 	defer tr.Close()
 	scns := zzverif.LoadScenarios()
-	zzverif.Parallel(len(scns), 12, func(sn int) {
+	width := 12
+	if v := os.Getenv("VERIF_PAR"); v != "" {
+		fmt.Sscanf(v, "%d", &width)
+	}
+	// fault injection inside olla: an attempt on an endpoint whose plan is "panic" panics at the
+	// proxy.attempt point (scenarios using it run one at a time: the hook is process-wide)
+	var boomMu sync.Mutex
+	boomSet := map[string]bool{}
+	verifhook.Set(func(name, key string) {
+		if name != "proxy.attempt" {
+			return
+		}
+		boomMu.Lock()
+		b := boomSet[key]
+		boomMu.Unlock()
+		if b {
+			panic("verif: injected panic in proxy attempt on " + key)
+		}
+	})
+	defer verifhook.Set(nil)
+	zzverif.Parallel(len(scns), width, func(sn int) {
 		var sc verifDispatchScn
 		if err := json.Unmarshal(scns[sn], &sc); err != nil {
 			panic(err)
 		}
 		b := tr.Block()
 		defer b.Flush()
+		if width == 1 {
+			boomMu.Lock()
+			for k := range boomSet {
+				delete(boomSet, k)
+			}
+			boomMu.Unlock()
+		}
 		opts := make([]verifEndpointOpt, len(sc.Eps))
 		modelsOf := map[string][]string{}
 		for i, name := range sc.Eps {
@@ -257,6 +286,13 @@ func TestVerif_Dispatch(t *testing.T) {
 					if kind == "refuse" {
 						be.SetDown(true)
 						emit("Down", "e", be.Name, "d", true)
+					}
+					boomMu.Lock()
+					was := boomSet[be.Name]
+					boomSet[be.Name] = kind == "panic"
+					boomMu.Unlock()
+					if was != (kind == "panic") {
+						emit("Boom", "e", be.Name, "b", kind == "panic")
 					}
 				}
 				route := stp.Route
